@@ -129,7 +129,13 @@ func c01Exec(c *fw.Ctx, cas c01Case) (nontrivial bool) {
 	addCalls := 0                 // AddMessage calls the unchanged server has made so far on this connection
 	boxDir := map[string]string{} // file store: mailbox name -> its directory, learnt from the first delivery
 	for ti, t := range cas.Txns {
-		if r := d.Cmd("MAIL FROM:<s@o.test>"); !r.OK {
+		// every transaction of a connection has its own sender: what an earlier one stored keeps the
+		// sender it was stored with
+		sender := "s@o.test"
+		if ti > 0 {
+			sender = fmt.Sprintf("s%d@o.test", ti+1)
+		}
+		if r := d.Cmd("MAIL FROM:<" + sender + ">"); !r.OK {
 			fail("mail|no-reply", "no reply to MAIL: "+r.Why)
 			return
 		}
@@ -153,7 +159,7 @@ func c01Exec(c *fw.Ctx, cas c01Case) (nontrivial bool) {
 				if to == "" {
 					to = "nobody@o.test"
 				}
-				body = "From: s@o.test\r\nTo: " + to + "\r\nSubject: " + subject + "\r\n\r\nbody with headers " + fmt.Sprint(ti) + "\r\n"
+				body = "From: " + sender + "\r\nTo: " + to + "\r\nSubject: " + subject + "\r\n\r\nbody with headers " + fmt.Sprint(ti) + "\r\n"
 			}
 			envFrom, envRcpts := d.From, append([]string{}, d.Rcpts...)
 			var hitsBefore int64
